@@ -235,6 +235,8 @@ def mk_value(ex, kind, tag="v"):
         return types
     if kind == "list":
         return [1, 2]
+    if kind == "list_bad":
+        return [1, "x"]
     if kind == "tuple_if":
         return (mk_value(ex, "int", tag + "0"), mk_value(ex, "float", tag + "1"))
     if kind == "tuple_fi":
